@@ -1,6 +1,7 @@
 """C16 - Property-protocol settings: sent once, correctly encoded, read back equal."""
 from __future__ import annotations
 
+import asyncio
 import collections
 from itertools import product
 
@@ -105,6 +106,8 @@ def events_for(profile, full_values=False):
     if ieco:
         ev += [("set", "ieco", True), ("set", "ieco", False)]
     ev += [("beep", True), ("beep", False), ("apply",), ("apply-silent",), ("refresh",), ("clean",)]
+    if angles or r != "none" or b != "none" or ieco:
+        ev.append(("refresh-push",))
     return ev
 
 
@@ -171,8 +174,20 @@ class Run:
         self.profile = profile
         self.viol = []
         self.silent = False
+        self.push = False
         model = RefAC(cap_pages=cap_pages(profile))
-        self.rig = Rig(2, ac=model)
+
+        def script(req):
+            if self.push and req.frame is not None and len(req.frame) > 10 and req.frame[10] == 0xB1 and model.prop_gets and model.prop_gets[-1]:
+                # an unsolicited, truthful status push for ONE of the queried properties arrives back to back with the reply
+                # (same instant, so both are consumed by this exchange)
+                pid = sorted(model.prop_gets[-1])[0]
+                push = req.dev.wrap(req.conn, model._props_frame(0xB1, [pid], 0x05, 0x5A))
+                req.conn.deliver_many(list(req.responses) + [push], 0.01)
+                return
+            for p in req.responses:
+                req.send(p)
+        self.rig = Rig(2, ac=model, script=script)
         self.rig.dev.lossy = None
         self.model = model
         dev = self.rig.dev
@@ -260,9 +275,12 @@ class Run:
                                 if val != expect[pid]:
                                     self.bad(f"property {pid:#06x} value encoding", f"sent {val.hex()} expected {expect[pid].hex()}")
                 self.pending.clear()
-            elif kind == "refresh":
+            elif kind in ("refresh", "refresh-push"):
+                self.push = kind == "refresh-push"
                 await ac.refresh()
-                self._check_readback("refresh")
+                self.push = False
+                self._check_readback(kind)
+
             elif kind == "clean":
                 await ac.start_self_clean()
                 writes = self.b0_writes(mark)
